@@ -99,7 +99,9 @@ Record scoping_ok (s : state) : Prop := {
   sc_rhs : forall b q, b_rhs (bd s b) = Some q ->
     scope (nd s q) = None \/ (scope (nd s q) = Some b /\ inGen s b q);
   (* declarations are acyclic *)
-  sc_acyclic : forall n q, q ∈ decl (nd s n) -> mu_lt s q n
+  sc_acyclic : forall n q, q ∈ decl (nd s n) -> mu_lt s q n;
+  (* a lhs-change node is declared by its main node only *)
+  sc_lhs : forall n q b0, q ∈ decl (nd s n) -> nkind (nd s q) = KBindLhs b0 -> n = S q
 }.
 
 Record valid_ok (s : state) : Prop := {
@@ -155,7 +157,9 @@ Record obs_ok (s : state) : Prop := {
   ob_iff : forall n o, o ∈ observers (nd s n) <-> obs s !! o = Some n;
   ob_nodup : forall n, NoDup (observers (nd s n));
   ob_ids : forall o n, obs s !! o = Some n ->
-    (o < next s)%nat /\ ~ has s o /\ scope (nd s n) = None
+    (o < next s)%nat /\ ~ has s o /\ scope (nd s n) = None;
+  (* lhs-change nodes are not observed *)
+  ob_user : forall o n, obs s !! o = Some n -> binds s !! n = None
 }.
 
 (** ** Transient structures are empty between operations *)
